@@ -54,6 +54,26 @@ def op? (s : String) : Option Op :=
       | [a, b] => some (.effRes a b)
       | _ => none
   | ["C", a] => a.toNat?.map .ercc
+  | ["V", i] => i.toNat?.map .vcfb
+  | ["B", ij] => match nats ij with
+      | [i, j] => some (.ecfb i j)
+      | _ => none
+  | ["G", i] => i.toNat?.map .admDeg
+  | ["N", i] => i.toNat?.map .anad
+  | ["L", i] => i.toNat?.map .lclust
+  | ["K"] => some .gclust
+  | ["R", ij] => match nats ij with
+      | [i, j] => some (.getR i j)
+      | _ => none
+  | ["M", ij] => match nats ij with
+      | [i, j] => some (.getAdm i j)
+      | _ => none
+  | ["P", ij] => match nats ij with
+      | [i, j] => some (.lap i j)
+      | _ => none
+  | ["S"] => some .meanRes
+  | ["UA"] => some .updAdm
+  | ["UR"] => some .updR
   | _ => none
 
 def answer (toks : List String) : String :=
